@@ -9,6 +9,7 @@ import (
 
 	pa "github.com/benoitkugler/webrender/css/parser"
 	"github.com/benoitkugler/webrender/html/boxes"
+	"github.com/benoitkugler/webrender/html/tree"
 	"github.com/benoitkugler/webrender/svg"
 	"github.com/benoitkugler/webrender/utils"
 
@@ -87,7 +88,42 @@ func Run(tier string, seed uint64, modelPath, repo string, out *res.Result) erro
 	} else {
 		out.NotChecked = append(out.NotChecked, "L1 model correspondences: no model driver given")
 	}
+	runCorpus(out)
 	return RunSearch(tier, seed, repo, out)
+}
+
+// runCorpus replays the minimal inputs of repaired parser crashes first (a regression must be
+// reported).  The document-level ones (attr(x url), <li value=MaxInt64>, <col span=4294967296>,
+// huge presentational lengths) are corpus cases of C01, where they run in worker subprocesses.
+func runCorpus(out *res.Result) {
+	sheets := []string{
+		"@page :nth(of){size:100px}", "@page:nth(of", // fixed: parsePageSelectors sliced [:-1]
+		"@font-face{src:format(", "@font-face{font-family:x;src:format(\"woff\")}", // fixed: _src indexed [-1]
+		"p::before{content:attr(v url)}",
+		"a{color:var()}", "@counter-style x{system:additive;additive-symbols:0 'a'}",
+	}
+	for _, s := range sheets {
+		oc := render.Guard(5*time.Second, func() { tree.NewCSSDefault(utils.InputString(s)) })
+		out.Count("corpus:"+s, true)
+		out.Hit("corpus:sheet")
+		if !oc.OK() {
+			out.Add(res.Finding{Kind: "crash", Op: "css-default", Input: s, Reason: "regression of a repaired defect: " + oc.Panic, Key: oc.Site})
+		}
+	}
+	for _, s := range []string{"-", "1-", "@-", "#-"} { // fixed 789077b
+		oc := render.Guard(5*time.Second, func() { pa.Tokenize([]byte(s), false) })
+		out.Hit("corpus:tokenize")
+		if !oc.OK() {
+			out.Add(res.Finding{Kind: "crash", Op: "tokenize", Input: s, Reason: "regression of a repaired defect: " + oc.Panic, Key: oc.Site})
+		}
+	}
+	for _, s := range []string{"x", "", "xMid"} { // fixed 0871e31
+		oc := render.Guard(5*time.Second, func() { svg.VerifC07MParsePAR(s) })
+		out.Hit("corpus:par")
+		if !oc.OK() {
+			out.Add(res.Finding{Kind: "crash", Op: "svg-attr:preserveAspectRatio", Input: s, Reason: "regression of a repaired defect: " + oc.Panic, Key: oc.Site})
+		}
+	}
 }
 
 func runL1(m *mp.Model, tier string, seed uint64, out *res.Result) error {
